@@ -27,25 +27,28 @@ claim("C01", "bit-provenance abstract interpretation + opcode-table agreement",
 
 claim("C03", "bit-provenance abstract interpretation of LEB128 readers and writers (write-then-read composed abstractly)",
       "readuleb128/readsleb128/readuleb128p1 are interpreted over symbolic bytes: every 1..5-byte path must be selected exactly by the continuation bits, "
-      "consume exactly that many bytes and produce the DEX-specified bit layout truncated to 32 bits with the right extension. The writers are interpreted on a "
+      "consume exactly that many bytes (on a stream of 8 arbitrary bytes followed by end of file, so a reader that follows more than five continuation bits is seen) and produce the DEX-specified bit layout truncated to 32 bits with the right extension. The writers are interpreted on a "
       "symbolic 32-bit value (magnitude classes by exact refinement) and their abstract output is run through the abstract reader: identity on every bit, flags correct.",
       "Trusted: agstatic bit domain and interpreter; cm.packer['B'] is an unsigned byte; stream.read(1) yields the next byte (EOF makes unpack raise).")
 
 claim("C04", "abstract interpretation of EncodedValue.__init__ per header byte (bit provenance) + binding and printing provenance",
       "For every (value_type, value_arg) header the constructor is interpreted over symbolic bytes: integers must be the little-endian value of exactly value_arg+1 bytes "
       "with the DEX-specified sign/zero extension, references must resolve the zero-extended index through the right ClassManager accessor, nested values parse from the same stream. "
-      "set_static_fields must bind value i to field i, and the conversion DvClass.get_source applies before printing is interpreted on the reader's abstract value.",
+      "set_static_fields must bind value i to field i; ClassDefItem.reload is executed on two class definitions sharing one encoded_array_item (each class must end up bound); "
+      "the conversion DvClass.get_source applies before printing is interpreted on the reader's abstract value.",
       "Trusted: agstatic bit domain; DEX encoded_value table in the rule (from the public format document). FLOAT/DOUBLE/METHOD_TYPE/METHOD_HANDLE not decided. "
       "29 listed known findings (no sign extension) stay reported as KNOWN-FINDING.")
 
 claim("C27", "abstract interpretation of format_value per Res_value type with a symbolic 32-bit datum; formatting results normalised to pieces",
       "format_value (and ARSCParser.get_resource_dimen/color) are interpreted for each defined type over all 2^32 data values at once (paths split on radix, unit, package and sign bits); "
-      "the normalised output pieces must be Android's: signed 24-bit mantissa x RADIX_MULTS[radix] (x100) + unit, signed 32-bit decimal, IEEE reinterpretation, 8 hex digits, boolean, '@'/'?' + android: prefix.",
+      "the normalised output pieces must be Android's: signed 24-bit mantissa x RADIX_MULTS[radix] (x100) + unit, signed 32-bit decimal, IEEE reinterpretation, 8 hex digits, boolean, '@'/'?' + android: prefix. "
+      "Sequence clause: the same data word formatted as type A and then as type B in one interpreter (module-level state shared) must give what B gives in a fresh state.",
       "Trusted: agstatic bit domain and format normaliser; AOSP constants transcribed in the rule; _data is an unsigned 32-bit value. Unit nibbles outside the AOSP tables are not constrained.")
 
 claim("C30", "abstract interpretation of locale pack/unpack on symbolic strings and words (bit provenance + base+x linear character codes)",
       "set_language_and_region/get_language_and_region and their helpers are interpreted on symbolic locale strings of every shape (2/3-letter language x none/2-letter/2-digit/3-char region) "
-      "and on symbolic configuration words of every reader form: get(set(s)) == s character by character, set(get(w)) == w bit by bit, decoded text = AOSP unpackLanguageOrRegion layout, default locale round-trips.",
+      "and on symbolic configuration words of every reader form: get(set(s)) == s character by character, set(get(w)) == w bit by bit, decoded text = AOSP unpackLanguageOrRegion layout (incl. a word whose language and region halves are the same packed bytes), default locale round-trips. "
+      "Character codes are compared semantically (every assignment of <= 12 source bits, 64 fixed patterns beyond: a difference comes with a witness).",
       "Trusted: agstatic domains (Bits, Lin, StrV); character classes assumed for letters/digits; AOSP packed layout transcribed in the rule.")
 
 claim("C23", "code-point class partition + abstract interpretation of writer.string per class, output read with JLS lexical rules",
@@ -57,7 +60,8 @@ claim("C23", "code-point class partition + abstract interpretation of writer.str
 claim("C02", "abstract interpretation of the sweep dispatch over the 16-bit unit domain + loop-progress CFG rule + payload constructors interpreted over symbolic buffers",
       "Dispatch: every first code unit (thorough: all 65536 x ODEX on/off; quick: all low bytes x one representative per distinguishable high-byte class) must be routed to the decoder the Dalvik format assigns, independent of position. "
       "Termination: every path round the loop passes idx += get_length() and every reachable get_length() has interval >= 2. Payloads: constructor bytes consumed == get_length() == len(get_raw()), get_raw() reproduces every input bit, "
-      "and a buffer shorter than the payload makes the constructor raise.",
+      "and a buffer shorter than the payload makes the constructor raise. Offsets: DCode.off_to_pos/get_ins_off on instructions of symbolic lengths. "
+      "Repeat: a second DCode.get_instructions on the same object must report what the first did (instructions, or the invalid instruction again).",
       "Trusted: agstatic interpreter and bit domain; payload size agreement is checked on a grid of sizes and extended to all sizes by a syntactic fragment check (affine with parity). "
       "Not decided: equality of the yielded stream with an assembled program.")
 
@@ -144,6 +148,36 @@ claim("C25", "abstract execution of short_circuit_struct on model graphs; printe
       "the original branches do; neg() must print the complement, CONDS must be the complement table, the Writer keeps neg() and the true/false swap paired.",
       "Trusted: CPython ast; agstatic/modeleval.py; the Java operator semantics in the rule. Chains of at most three conditions.")
 
+
+# ---- clauses added in the held-out round (wave 3, DESIGN section 13): appended to the claim texts ---------------------------
+WAVE3 = {
+    "C05": " Lookup helpers are judged on a bounded model (agstatic/dexsim.py) with same-named fields of different type and overloads; getters whose file value is masked/shifted are followed.",
+    "C07": " The permutation simulation also runs for a file that ends exactly behind its map list, and for two constructions in one simulated process (class-level state shared).",
+    "C09": " Every wrong-value family is also run after a valid file was constructed in the same interpreter (class-level state shared); the stream model serves any struct layout of the magic bytes: a magic byte that reaches no rejecting test is a finding.",
+    "C10": " The exception table is interpreted (determineException and EncodedCatchHandler executed): every try start, typed handler address and catch-all address must be a leader, incl. two try ranges sharing one handler list.",
+    "C11": " bisect-based block lookup is interpreted; a branch target before the first block must have no successor block.",
+    "C12": " handler-pairing: try items must report the handlers of the entry their handler_off refers to even when an earlier entry uses padded LEB128; a handler address inside an instruction must resolve to the containing block.",
+    "C13": " Scenario families added: rank-2 array receivers, code inside interface classes.",
+    "C14": " The real DEX.get_encoded_field_descriptor is executed on the model DEX (same-named fields of different type); a class with fields but no methods; truthiness through __len__/__bool__.",
+    "C15": " Raw vs hooked string lookup (rename hooks) is modelled; a const-string whose string id carries a hook.",
+    "C16": " String tables per DEX and header items are modelled (equal SHA-1 fields are legal input).",
+    "C17": " rename-scenario: set_name executed end to end on a miniature ClassManager under four histories; aliasing-exposure separates eager re-resolution from lazy invalidation.",
+    "C21": " Register operands carry the type the mnemonic fixes; new rule java-lexing (the printed text must lex into the tokens of its pieces by Java's longest-match rule); propagated constants also for unary ops.",
+    "C22": " process-history also covers containers owned by the DEX object model (getters returning their own list) that the decompiler mutates in place.",
+    "C24": " parameter-list: get_params_type evaluated on 27 prototype templates over representative names of the whole DEX SimpleName alphabet.",
+    "C25": " node-map: after every pass each node_map value must be a live node of the graph.",
+    "C29": " Tables whose back edge is taken more than once; the resources object is the repository's own ARSCParser over the abstract table (members without default-locale entry).",
+    "C32": " find_certificate is interpreted on a symbolic certificate bag: a returned certificate must have compared equal to the sid in issuer and serial on that path.",
+    "C33": " repeated-access: every accessor called again after the first parse must answer the same and store every pair once.",
+    "C34": " get_file is run after another entry with equal metadata was read (keyed instance caches); dict-built listings are checked for key collisions on names enumerated from the selected language.",
+    "C35": " A read result compared with an empty literal (iter(callable, sentinel), ==, !=) needs the literal's type to match what read() returns on that stream.",
+    "C36": " key-reuse: no delete on the session table on the creation path (SQLite reuses a freed rowid).",
+    "C37": " A containment check vouches only for the checked value (and joins below it); a suffix appended after a non-strict check is unchecked.",
+    "C38": " str.translate tables and textual splits of the path are modelled; unmodelled string operations give exit 2, never a finding.",
+    "C39": " Concrete grid of levels incl. negative requests; history rule: two calls on one interpreter (module-level state shared) in both orders.",
+    "C40": " History case: lookup, set_instructions with a permuted list, lookup again; offset clause also on the array/sequence/interface scenarios.",
+}
+
 # properties whose builder-written rule has been reviewed, is silent on the unchanged tree and passes its self-test
 INTEGRATED = ["C21", "C24", "C09", "C32", "C29", "C36", "C12", "C39", "C33", "C13", "C14", "C15", "C16", "C40",
               "C34", "C38", "C37", "C05", "C07", "C17", "C22", "C08", "C10", "C11", "C25", "C35"]
@@ -174,3 +208,8 @@ def _load_integrated():
 
 
 _load_integrated()
+
+
+for _pid, _txt in WAVE3.items():
+    if _pid in CLAIMED:
+        CLAIMED[_pid]["text"] = (CLAIMED[_pid]["text"].rstrip() + _txt)[:1500]
